@@ -25,6 +25,7 @@
 #include <fcppt/log/detail/context_tree_node.hpp>
 #include <fcppt/log/impl/find_child_const.hpp>
 #include <fcppt/log/impl/find_or_create_child.hpp>
+#include <fcppt/log/impl/verif_sched_point.hpp>
 #include <fcppt/optional/maybe.hpp>
 #include <fcppt/config/external_begin.hpp>
 #if defined(ENABLE_THREADS)
@@ -76,6 +77,8 @@ fcppt::log::context::~context() = default;
 void fcppt::log::context::set(
     fcppt::log::location const &_location, fcppt::log::optional_level const &_level)
 {
+  FCPPT_VERIF_SCHED_POINT(1)
+
   impl::lock_guard const lock{this->impl_->mutex()};
 
   for (fcppt::log::detail::context_tree &node : fcppt::container::tree::make_pre_order(
@@ -87,6 +90,8 @@ void fcppt::log::context::set(
 
 fcppt::log::optional_level fcppt::log::context::get(fcppt::log::location const &_location) const
 {
+  FCPPT_VERIF_SCHED_POINT(2)
+
   impl::lock_guard const lock{this->impl_->mutex()};
 
   return fcppt::algorithm::fold_break(
@@ -119,6 +124,8 @@ fcppt::reference<fcppt::log::detail::context_tree const> fcppt::log::context::ro
 fcppt::reference<fcppt::log::detail::context_tree const>
 fcppt::log::context::find_location(fcppt::log::location const &_location)
 {
+  FCPPT_VERIF_SCHED_POINT(3)
+
   impl::lock_guard const lock{this->impl_->mutex()};
 
   return fcppt::reference_to_const(this->impl_->find_location_impl(_location, lock));
@@ -128,6 +135,8 @@ fcppt::reference<fcppt::log::detail::context_tree const> fcppt::log::context::fi
     fcppt::reference<fcppt::log::detail::context_tree const> const _node,
     fcppt::log::name const &_name)
 {
+  FCPPT_VERIF_SCHED_POINT(4)
+
   impl::lock_guard const lock{this->impl_->mutex()};
 
   return fcppt::reference_to_const(fcppt::log::impl::find_or_create_child(
